@@ -29,6 +29,19 @@ CHECKS = {
         note="trusted: TLC, IntCodec.tla (math/big re-derives every verdict; disagreement = exit 2), strconv for the encoder sweep.",
         technique="TLA+ digit-sequence spec model-checked by TLC; TLC-emitted (kind, literal, verdict) cases replayed into the decoder; strconv sweep for the printer",
         engine="IntCodec", design="8/C16"),
+    "C17": dict(
+        level="model_checking",
+        text="StrCodec.tla defines encoder tokens (well-formed scalars and ill-formed byte groups), their meaning after parsing "
+             "(ill-formed bytes -> U+FFFD), the must-escape sets per flag, and the scalar sequence of every string-literal item "
+             "sequence (escapes, surrogate pairing, lone surrogates); TLC checks Meaning(Enc(s)) = Repl(s), absence of forbidden raw "
+             "items and well-formedness under normalisation for all token sequences up to length 3/4 and 4 flag combinations, and "
+             "exports the token table and all item sequences up to length 2/3 with expected scalars. The harness instantiates them "
+             "with concrete bytes at every offset relative to the 8-byte scanning window (5 encoder contexts, 10 decoder contexts, all "
+             "byte strings up to length 2/3) and compares go-json with the specification and with encoding/json.",
+        note="trusted: TLC, StrCodec.tla (cross-checked with encoding/json on every decoder case; disagreement = exit 2), "
+             "encoding/json's decoder as the conforming parser, utf8.DecodeRune as tokeniser.",
+        technique="TLA+ token-level codec spec model-checked by TLC; TLC-exported token table and item-sequence cases instantiated at all window offsets",
+        engine="StrCodec", design="8/C17"),
     "C18": dict(
         level="model_checking",
         text="JsonTransform.tla defines Compact and Indent as transducers on top of the JsonText recogniser; TLC checks on every "
@@ -115,6 +128,8 @@ NA = {}
 HOOK_COMMITS = ["cb16685"]
 FIX_COMMITS = ["3ba2124", "35e540e", "5d9c0a9", "182cdbb", "c177d40", "4cc9b5c"]
 ENGINES = [
+    dict(name="StrCodec", path="specs/StrCodec.tla", serves_properties=["C17"],
+         kind_free_text="TLA+ token-level model of JSON string escaping/unescaping; TLC laws + table/case export"),
     dict(name="IntCodec", path="specs/IntCodec.tla", serves_properties=["C16"],
          kind_free_text="TLA+ digit-sequence arithmetic and integer literal semantics; TLC laws + conformance case emission"),
     dict(name="StreamDecoder", path="specs/StreamDecoder.tla", serves_properties=["C09"],
